@@ -77,6 +77,28 @@ def place_events(rng, model_edges_x, model_edges_y, cells_ij, n, dh):
     return lon, lat, ij
 
 
+def make_bins(mag):
+    """(edges handed to the library, nominal decimal edges). mag[3] (optional) chooses how the edges are computed: the nearest doubles of
+    the decimal values, or the usual user idioms numpy.arange / start+k*step / numpy.linspace whose edges carry accumulated round-off."""
+    nominal = fixtures.mag_bins(mag[0], mag[1], mag[2])
+    kind = mag[3] if len(mag) > 3 else "decimal"
+    s, h, n = float(mag[0]), float(mag[1]), int(mag[2])
+    if kind == "arange":
+        bins = numpy.arange(s, s + (n - 0.5) * h, h)
+    elif kind == "mul":
+        bins = s + numpy.arange(n) * h
+    elif kind == "linspace":
+        bins = numpy.linspace(s, s + (n - 1) * h, n)
+    else:
+        bins = nominal
+    if bins.size != nominal.size:
+        bins = nominal
+    return bins, nominal
+
+
+OTHER_BOUND = [("3.0", "0.5", 3), ("4.95", "0.1", 41), ("6.05", "0.3", 7)]
+
+
 def place_mags(rng, bins, n, above=True):
     k = rng.integers(0, bins.size, n)
     h = bins[1] - bins[0] if bins.size > 1 else 0.1
@@ -104,15 +126,21 @@ def ex_cartesian(ctx, lat_case, mag, n, hostile, seed):
     reg, model, origins = c01.build_region(lat_case)
     flags = lat_case.get("flags") or [1] * len(lat_case["cells"])
     active = [tuple(c) for c, f in zip(lat_case["cells"], flags) if f == 1]
-    bins = fixtures.mag_bins(mag[0], mag[1], mag[2])
+    bins, nominal = make_bins(mag)
     explicit = bool(seed % 2)
+    bound_other = explicit and seed % 4 == 1
     if not explicit:
         reg.magnitudes = bins
+    elif bound_other:
+        # the region carries ANOTHER magnitude grid; the explicitly supplied one must win
+        ob = OTHER_BOUND[seed % 3]
+        reg.magnitudes = fixtures.mag_bins(*ob)
     rc = {"exec": "cartesian", "args": {"lat_case": lat_case, "mag": mag, "n": n, "hostile": hostile, "seed": seed}}
     ctx.current_case = rc
-    tags = {"region": "cartesian", "flags": lat_case.get("flags") is not None, "explicit_bins": explicit, "hostile": hostile, "n0": n == 0}
+    tags = {"region": "cartesian", "flags": lat_case.get("flags") is not None, "explicit_bins": explicit, "hostile": hostile, "n0": n == 0,
+            "bound_other_grid": bound_other, "edges": mag[3] if len(mag) > 3 else "decimal"}
     lon, lat, ij = place_events(rng, model.ex, model.ey, active, n, float(lat_case["dh"]))
-    mags, mk = place_mags(rng, bins, n)
+    mags, mk = place_mags(rng, nominal, n)
     cell = model.ci[ij[:, 0], ij[:, 1]] if n else numpy.zeros(0, dtype=int)
     outside_pt = (float(model.ex[-1] + 3.3 * float(lat_case["dh"])), float(model.ey[0] - 2.2 * float(lat_case["dh"])))
     inactive = numpy.argwhere(model.ci < 0)
@@ -123,7 +151,7 @@ def ex_cartesian(ctx, lat_case, mag, n, hostile, seed):
         outside_pt = (float(model.ex[i_] + 0.5 * dh_), float(model.ey[j_] + 0.5 * dh_))
         tags = dict(tags, outside_kind="hole-or-flagged-cell")
     out = run_case(ctx, rc, tags, reg, bins, explicit, lon, lat, mags, cell, mk, hostile, rng, outside_pt=outside_pt)
-    if out is not None and n:
+    if out is not None and n and not bound_other:
         rebind_history(ctx, rc, tags, out, lat_case, bins, explicit, rng)
     if n >= 2:
         ctx.nt(digest(("cart", lat_case, mag, n, hostile, seed)))
@@ -188,10 +216,12 @@ def rebind_history(ctx, rc, tags, out, lat_case, bins, explicit, rng):
 def ex_quadtree(ctx, qmode, zoom, mag, n, hostile, seed):
     from csep.core.regions import QuadtreeGrid2D
     rng = numpy.random.default_rng([seed, 4])
-    bins = fixtures.mag_bins(mag[0], mag[1], mag[2])
+    bins, nominal = make_bins(mag)
     explicit = bool(seed % 2)
+    bound_other = explicit and seed % 4 == 1
+    other = fixtures.mag_bins(*OTHER_BOUND[seed % 3]) if bound_other else None
     if qmode == "single":
-        reg = QuadtreeGrid2D.from_single_resolution(zoom, magnitudes=None if explicit else bins)
+        reg = QuadtreeGrid2D.from_single_resolution(zoom, magnitudes=other if explicit else bins)
     elif qmode == "cut":
         qk = c17.random_cut(rng, zoom + 1, keep=1.0)
         order = int(rng.integers(0, 3))
@@ -199,11 +229,11 @@ def ex_quadtree(ctx, qmode, zoom, mag, n, hostile, seed):
             qk = [qk[i] for i in rng.permutation(len(qk))]               # arbitrary listing order
         elif order == 2:
             qk = sorted(qk, key=lambda q: (len(q), c17.tile_bounds(q)[1]))  # coarse cells first, south to north
-        reg = QuadtreeGrid2D.from_quadkeys(qk, magnitudes=None if explicit else bins)
+        reg = QuadtreeGrid2D.from_quadkeys(qk, magnitudes=other if explicit else bins)
     else:
         lo, la = c17._catalog(rng, "cluster", zoom + 2)
         reg = QuadtreeGrid2D.from_catalog(fixtures.catalog(lo, la, numpy.full(len(lo), 5.0)), int(rng.choice([2, 10])), zoom=zoom + 2,
-                                          magnitudes=None if explicit else bins)
+                                          magnitudes=other if explicit else bins)
     if not hasattr(reg, "magnitudes"):
         reg.magnitudes = None
     b = numpy.asarray(reg.bounds, dtype=float)
@@ -211,10 +241,11 @@ def ex_quadtree(ctx, qmode, zoom, mag, n, hostile, seed):
     mode = rng.integers(0, 4, n)
     lon = numpy.where(mode <= 1, b[k, 0], b[k, 0] + rng.uniform(0.2, 0.8, n) * (b[k, 2] - b[k, 0]))
     lat = numpy.where((mode == 0) | (mode == 2), b[k, 1], b[k, 1] + rng.uniform(0.2, 0.8, n) * (b[k, 3] - b[k, 1]))
-    mags, mk = place_mags(rng, bins, n)
+    mags, mk = place_mags(rng, nominal, n)
     rc = {"exec": "quadtree", "args": {"qmode": qmode, "zoom": zoom, "mag": mag, "n": n, "hostile": hostile, "seed": seed}}
     ctx.current_case = rc
-    tags = {"region": "quadtree", "explicit_bins": explicit, "hostile": hostile, "n0": n == 0}
+    tags = {"region": "quadtree", "explicit_bins": explicit, "hostile": hostile, "n0": n == 0, "bound_other_grid": bound_other,
+            "edges": mag[3] if len(mag) > 3 else "decimal"}
     # outside points: beyond the Mercator limit, or exactly ON the grid's north edge (north is exclusive)
     run_case(ctx, rc, tags, reg, bins, explicit, lon, lat, mags, k, mk, hostile, rng,
              outside_pt=(10.0, 86.5) if seed % 3 else (float(b[int(rng.integers(0, len(b))), 0]), float(b[:, 3].max())))
@@ -262,7 +293,7 @@ def run_case(ctx, rc, tags, reg, bins, explicit, lon, lat, mags, cell, mk, hosti
             if not okx:
                 ctx.violate("%s raised on an in-range catalog" % nm, rc, observed=repr(val), tags=dict(tags, api=nm))
         # magnitude bin k == size of the equivalent magnitude-range filter
-        if ok2 and n:
+        if ok2 and n and tags.get("edges") == "decimal":
             for k in sorted(set(rng.integers(0, bins.size, 4).tolist() + [bins.size - 1])):
                 st = ["magnitude >= %r" % float(bins[k])] + (["magnitude < %r" % float(bins[k + 1])] if k + 1 < bins.size else [])
                 okf, f, tbf = ctx.call(cat.filter, st, in_place=False)
@@ -318,7 +349,9 @@ def ex_noop(ctx):
 
 
 EXECUTORS = {"cartesian": ex_cartesian, "quadtree": ex_quadtree, "noop": ex_noop}
-MAGS = [("4.95", "0.1", 41), ("5.95", "0.1", 12), ("2.5", "0.1", 30), ("5.0", "0.5", 6), ("3.95", "0.2", 9), ("4.95", "0.1", 1), ("6.0", "0.25", 4)]
+MAGS = [("4.95", "0.1", 41), ("5.95", "0.1", 12), ("2.5", "0.1", 30), ("5.0", "0.5", 6), ("3.95", "0.2", 9), ("4.95", "0.1", 1), ("6.0", "0.25", 4),
+        ("3.0", "0.1", 60, "arange"), ("2.5", "0.1", 30, "arange"), ("4.0", "0.1", 41, "linspace"), ("3.0", "0.2", 20, "mul"), ("4.95", "0.1", 31, "mul"),
+        ("0.05", "0.3", 12, "arange")]
 
 
 def run(ctx):
